@@ -326,17 +326,19 @@ def fun_macro(n: int, t0: int, t1: int, t2: int, t3: int, x: int, y: int, form: 
     """function-like macro F(a,b) with a body of <=4 tokens: every use is replaced by the body with the
     arguments substituted for whole-word parameters
     pre: 1 <= n <= FN and 0 <= t0 < len(FBODY) and 0 <= t1 < len(FBODY) and 0 <= t2 < len(FBODY) and 0 <= t3 < len(FBODY)
-    pre: 0 <= x < len(ARGS) and 0 <= y < len(ARGS) and 0 <= form <= 1 and (t0 + x) % NPART == PART
+    pre: 0 <= x < len(ARGS) and 0 <= y < len(ARGS) and 0 <= form <= 2 and (t0 + x) % NPART == PART
     post: _
     """
     tick("fun_macro")
     body = "".join(FBODY[conc(t, 0, len(FBODY) - 1)] for t in [t0, t1, t2, t3][:n])
-    x, y, form = conc(x, 0, len(ARGS) - 1), conc(y, 0, len(ARGS) - 1), conc(form, 0, 1)
+    x, y, form = conc(x, 0, len(ARGS) - 1), conc(y, 0, len(ARGS) - 1), conc(form, 0, 2)
     if body.strip() != body or body.endswith("\\") or body == "":
         return True
     ax, ay = ARGS[x], ARGS[y]
-    use = [f"z = FF({ax},{ay})", f"z = FF({ax},{ay}) - FFX(1,2)"][form]
+    use = [f"z = FF({ax},{ay})", f"z = FF({ax},{ay}) - FFX(1,2)", f"z = FF({ax},{ay})"][form]
     lines = [f"#define FF(a,b) {body}", use]
+    if form == 2:  # the macro was used, undefined and defined again with OTHER parameter names before this use
+        lines = ["#define FF(p1,p2) p2-p1", "w = FF(1,2)", "#undef FF"] + lines
     with NoTracing():
         import re as _re
 
@@ -346,6 +348,6 @@ def fun_macro(n: int, t0: int, t1: int, t2: int, t3: int, x: int, y: int, form: 
             return _re.sub(r"\b(a|b)\b", lambda m: ax if m.group(1) == "a" else ay, bd)
 
         want = use.replace(f"FF({ax},{ay})", sub_params(body), 1)
-        ok = out[1] == want
+        ok = out[-1] == want and (form != 2 or out[1] == "w = 2-1")
     tock("fun_macro")
     return ok
